@@ -207,7 +207,7 @@ impl Property for C14 {
             if let Ok(m) = naga_parse(&wgsl) {
                 let agree = truth.iter().all(|(name, n)| m.entry_points.iter().any(|e| &e.name == name && needed_targets(&m, &e.function) == *n));
                 if !agree {
-                    eprintln!("C14: note: generator truth and naga data disagree on case {i}; case dropped");
+                    note(format!("generator truth and naga data disagree on case {i}; case dropped"));
                     continue;
                 }
             }
